@@ -101,6 +101,12 @@ def gen_C01(g, tier):
         # every single byte as a one-character text
         for b in range(256):
             lines.append(f"{c} show p bytes {b:02x}")
+        # the display routes of an owned sequence (Display for Seq, to_string, String::from(&Seq), String::from(Seq))
+        for n in boundary_lengths(w, 2):
+            lines.append(f"{c} showv p {r.choice(ENTRIES_TEXT)} {hx(g.canon_text(c, n))}")
+        for _ in range(4 if tier == "quick" else 60):
+            v, n = rand_value(g, c, r.randrange(0, 4), 80)
+            lines.append(f"{c} showv {v}")
     return lines
 
 
@@ -237,6 +243,33 @@ def gen_C03(g, tier):
     return lines
 
 
+def alt_codes(g, c):
+    """bit patterns that decode to a symbol whose canonical code is different (#[alt] codes)"""
+    w = g.width[c]
+    tfb = g.info[c]["try_from_bits"]
+    return [b for b in range(1 << w) if isinstance(tfb[b], int) and tfb[b] != b]
+
+
+def codes_value(c, w, codes):
+    """owned value holding exactly these chunk codes (Seq::from_raw of the packed words)"""
+    n = len(codes)
+    bits = sum(cd << (i * w) for i, cd in enumerate(codes))
+    k = (n * w + 63) // 64
+    ws = [(bits >> (64 * j)) & ((1 << 64) - 1) for j in range(k)]
+    return f"fromwords {n} {k} {' '.join(map(str, ws))}".rstrip()
+
+
+def alt_value(g, c, n):
+    """owned value of n symbols stored partly under alternative codes (None when the codec has none)"""
+    alts = alt_codes(g, c)
+    if not alts or n == 0:
+        return None
+    canon = g.info[c]["items"]
+    codes = [g.r.choice(alts) if g.r.random() < 0.4 else g.r.choice(canon) for _ in range(n)]
+    codes[g.r.randrange(n)] = g.r.choice(alts)
+    return codes_value(c, g.width[c], codes)
+
+
 def rand_value(g, c, depth, maxlen=70):
     """random owned-value expression with its symbol count: parsed / collected / copied from an offset slice /
     reversed / complemented / masked / edited / rebuilt from its raw image"""
@@ -248,9 +281,21 @@ def rand_value(g, c, depth, maxlen=70):
         per = math.lcm(64, w) // w   # symbols in the smallest whole number of storage words
         n = r.choice([0, 1, 2, 3, 5, 64 // w - 1, 64 // w, 64 // w + 1, per, 2 * per, r.randrange(0, maxlen), r.randrange(0, maxlen)])
         n = min(n, max(maxlen, per))
+        if n and r.random() < 0.12:
+            av = alt_value(g, c, n)
+            if av:
+                return av, n
         e = r.choice(ENTRIES_TEXT + ENTRIES_BYTES + ENTRIES_SYMS)
         return f"p {e} {hx(g.text(c, n))}", n
-    k = r.randrange(14)
+    k = r.randrange(15)
+    if k == 14:
+        # the borrowed bit operators: the result has the length of the left operand (equal lengths mostly)
+        e, n = rand_slice(g, c, depth - 1, maxlen)
+        if r.random() < 0.8:
+            e2 = offset_slice(g, c, g.text(c, n), r.randrange(0, 64 // w + 1))
+        else:
+            e2, _ = rand_slice(g, c, depth - 1, maxlen)
+        return f"{r.choice(['and', 'or'])} {e} {e2}", n
     if k == 0:
         e, n = rand_slice(g, c, depth - 1, maxlen)
         return f"own {e}", n
@@ -505,6 +550,20 @@ def gen_C07(g, tier):
                         lines.append(f"{c} show {op} {v_}")
                     lines.append(f"{c} show stocomp {v_}")
                     lines.append(f"{c} show storevcomp {v_}")
+        # content stored under alternative codes (raw constructors): every form, owned and on offset windows, once and twice
+        if alt_codes(g, c):
+            for n in sorted({1, 2, per_ - 1, per_, per_ + 1, 2 * per_ + 1}):
+                for _ in range(1 if tier == "quick" else 6):
+                    av = alt_value(g, c, n)
+                    for op in ops_v:
+                        lines.append(f"{c} show {op} {av}")
+                        lines.append(f"{c} show {op} {op} {av}")
+                    for op in ops_s:
+                        lines.append(f"{c} show {op} {av}")
+                        lines.append(f"{c} show {op} {op} {av}")
+                        if n >= 2:
+                            lines.append(f"{c} show {op} sl r 1 {n} {av}")
+                            lines.append(f"{c} show {op} sl rt 0 {n - 1} {av}")
         # unsupported complement must be refused by both sides
         if not info["has_comp"]:
             lines.append(f"{c} show comp p str {hx(g.text(c, 3))}")
@@ -568,6 +627,9 @@ def fitting_ks(w, sbits, tier, r):
     ks = list(range(1, sbits // w + 1))
     if tier == "quick" and len(ks) > 8:
         keep = {1, 2, 3, ks[-1], ks[-2], len(ks) // 2}
+        # K's whose last symbol ends at / straddles / starts at a 64-bit word boundary of the storage
+        for j in range(1, sbits // 64 + 1):
+            keep |= {k for k in (64 * j // w - 1, 64 * j // w, 64 * j // w + 1) if 1 <= k <= ks[-1]}
         keep |= set(r.sample(ks, 3))
         ks = sorted(keep)
     return ks
@@ -753,6 +815,24 @@ def gen_C04(g, tier):
             m = r.randrange(0, (k * 64) // w + 3)
             lines.append(f"{c} show fromwords {m} {k} {' '.join(map(str, ws))}".rstrip())
             lines.append(f"{c} raw fromwords {m} {k} {' '.join(map(str, ws))}".rstrip())
+        # the by-value integer of an owned sequence whose bit vector starts mid-word (From<&BitSlice>): content may span two words
+        for off in ((1, 60, 63) if tier == "quick" else range(1, 64)):
+            for n in sorted({1, per - 1, per}):
+                if n >= 1:
+                    lines.append(f"{c} usizev frombits {off} p str {hx(g.text(c, n))}")
+                    lines.append(f"{c} usize frombits {off} p str {hx(g.text(c, n))}")
+    # `From<Vec<usize>> for Seq<text::Dna>`: the words are the sequence's storage, eight 8-bit symbols per word
+    for _ in range(8 if tier == "quick" else 80):
+        k = r.randrange(0, 4)
+        ws = [g.value("text", g.text("text", 8)) if r.random() < 0.7 else r.randrange(1 << 64) for _ in range(k)]
+        wtxt = " ".join(map(str, ws))
+        for q in ("show", "raw", "showv", "hashv"):
+            lines.append(f"text {q} vecwords {k} {wtxt}".rstrip())
+        if k == 1:
+            lines.append(f"text usizev vecwords {k} {wtxt}")
+        lines.append(f"text show push 1 vecwords {k} {wtxt}".rstrip())
+        lines.append(f"text eqfresh vecwords {k} {wtxt}".rstrip())
+    lines.append("dna show vecwords 1 5")
     return lines
 
 
@@ -807,6 +887,18 @@ def gen_C08(g, tier):
                 lines.append(f"{c} kmer show {K} {st} {g.value(c, g.canon_text(c, K))}")
             # K one past what fits must be refused by both sides
             lines.append(f"{c} kmer show {sbits // w + 1} {st} 0")
+        # k-mers of content stored under alternative codes are its windows bit for bit (external and internal iteration)
+        if alt_codes(g, c):
+            for K in fitting_ks(w, 64, tier, r):
+                for _ in range(1 if tier == "quick" else 6):
+                    n = r.randrange(K, K + 8)
+                    av = alt_value(g, c, n)
+                    lines.append(f"{c} kmers {K} {av}")
+                    lines.append(f"{c} windows {K} {av}")
+                    for ad in ("foldafter", "lastafter", "countafter", "nth", "last", "skip"):
+                        lines.append(f"{c} adapt kmers {K} {ad} {r.choice([0, 1, 2])} {av}")
+                    lines.append(f"{c} kmer try {K} usize sl r 0 {K} {av}")
+                    lines.append(f"{c} show ofkmer {K} sl r 0 {K} {av}")
     return lines
 
 
@@ -906,6 +998,16 @@ def gen_C10(g, tier):
             v, n = rand_value(g, c, r.randrange(1, 5), 3 * per)
             lines.append(f"{c} eqfresh {v}")
             lines.append(f"{c} cmp {v} p str {hx(g.text(c, n))}")
+        # equal lengths of whole storage words, differing in exactly one symbol of the first / last / a middle word
+        import math
+        pw = math.lcm(64, w) // w
+        for n in (pw, 2 * pw, 3 * pw):
+            ta = g.text(c, n)
+            for i in sorted({0, pw - 1, n - pw, n - 1, r.randrange(n)}):
+                alt = [b for b in g.alpha[c] if g.code(c, b) != g.code(c, ta[i])]
+                tb = ta[:i] + [r.choice(alt)] + ta[i + 1:]
+                lines.append(f"{c} cmp p str {hx(ta)} p str {hx(tb)}")
+                lines.append(f"{c} cmp p str {hx(tb)} own {offset_slice(g, c, ta, 1)}")
         for n in (per - 1, per, per + 1):
             t = g.text(c, n + 2)
             lines.append(f"{c} cmp trunc {n} p str {hx(t)} p str {hx(t[:n])}")
@@ -917,6 +1019,17 @@ def gen_C10(g, tier):
                 lines.append(f"{c} kmer minmax {K} usize {sl_}")
                 lines.append(f"{c} kmer minafter {K} usize {r.choice([0, 1, 2, 3, n - K, n - K + 1, n])} {sl_}")
                 lines.append(f"{c} kmer minnth {K} usize {r.choice([0, 1, 2, 3, n - K, n - K + 1, n])} {sl_}")
+        # windows of content stored under alternative codes keep their packed value (minimisers must be real windows)
+        if alt_codes(g, c):
+            for K in fitting_ks(w, 64, tier, r):
+                for _ in range(2 if tier == "quick" else 10):
+                    n = r.randrange(K, K + 10)
+                    av = alt_value(g, c, n)
+                    lines.append(f"{c} kmer minmax {K} usize {av}")
+                    lines.append(f"{c} kmer minafter {K} usize {r.choice([0, 1, 2])} {av}")
+                    lines.append(f"{c} kmer minnth {K} usize {r.choice([0, 1, 2])} {av}")
+                    lines.append(f"{c} kmers {K} {av}")
+                    lines.append(f"{c} cmp {av} {alt_value(g, c, n)}")
     # codecs without Ord must be refused by both sides
     lines.append("iupac cmp p str 41 p str 43")
     lines.append("amino kmer cmp 2 usize 1 2")
